@@ -616,6 +616,48 @@ func main() {
 			nplans = 40000
 		}
 		icc, exif, xmp := []byte("ICC-odd"), []byte("EXIF-even"), []byte("<xmp/>")
+		// 1b. alpha flag: one translucent pixel at each critical position (first, last, start of the last row,
+		// the last three pixels) for sizes with w*h mod 4 in {0,1,2,3}; lossless and lossy, with and without metadata
+		for _, d := range [][2]int{{5, 3}, {3, 3}, {3, 2}, {4, 4}, {1, 7}, {7, 1}, {1, 1}, {2, 1}, {17, 3}} {
+			w, h := d[0], d[1]
+			n := w * h
+			posSet := map[int]bool{0: true, n - 1: true, (h - 1) * w: true}
+			for _, k := range []int{n - 2, n - 3} {
+				if k >= 0 {
+					posSet[k] = true
+				}
+			}
+			for pos := 0; pos < n; pos++ {
+				if !posSet[pos] {
+					continue
+				}
+				for _, lossless := range []bool{true, false} {
+					for _, meta := range []bool{false, true} {
+						for _, av := range []uint8{0, 128, 254} {
+							im := image.NewNRGBA(image.Rect(0, 0, w, h))
+							for i := 0; i < n; i++ {
+								im.Pix[i*4], im.Pix[i*4+1], im.Pix[i*4+2], im.Pix[i*4+3] = uint8(40+i*9), uint8(200-i*5), uint8(i*23), 255
+							}
+							im.Pix[pos*4+3] = av
+							o := webp.DefaultOptions()
+							o.Lossless = lossless
+							o.Exact = rng.Bool()
+							if meta {
+								o.EXIF = exif
+							}
+							data, err := encodeFile(im, o)
+							if err != nil {
+								c.Violate("generator-encode-failed", "Encode failed", fmt.Sprint(err))
+								continue
+							}
+							files = append(files, c16File{Kind: fmt.Sprintf("alpha-pos-%dx%d-mod%d-pos%d-a%d-lossless=%v-meta=%v", w, h, n%4, pos, av, lossless, meta),
+								Data: data, WF: true, Ours: true})
+						}
+					}
+				}
+			}
+		}
+		// 2-4: per harvested size
 		var parts []c16Parts
 		for _, d := range dims {
 			w, h := d[0], d[1]
